@@ -80,20 +80,33 @@ def _cfg(crate):
             "pkg_fingerprint": "walrus-rust-",
             "cargo_args": ["--lib"],
         }
-    if crate == "dwshim":
-        hd = os.path.join(VERIF, "harness", "dwshim")
+    if crate in ("dwshim", "oshim"):
+        src = os.path.join(VERIF, "harness", crate)
+        if crate == "dwshim":
+            repo_inputs = [os.path.join(repo, "distributed-walrus/src/metadata.rs"), os.path.join(repo, "distributed-walrus/src/controller/types.rs")]
+            lib = ('#![allow(warnings)]\n#[path = "%s/distributed-walrus/src/metadata.rs"]\npub mod metadata;\n'
+                   '#[path = "%s/distributed-walrus/src/controller/types.rs"]\npub mod types;\n' % (repo, repo))
+        else:
+            repo_inputs = _walk_rs(os.path.join(repo, "octopii/src/wal/wal"))
+            lib = '#![allow(warnings)]\npub mod wal {\n    #[path = "%s/octopii/src/wal/wal/mod.rs"]\n    pub mod wal;\n}\n' % repo
+        # the harness is instantiated outside /verif so that the #[path] can follow VERIF_REPO
+        tag = hashlib.sha256(repo.encode()).hexdigest()[:10]
+        hd = os.path.join(_cache_dir(), "harness-%s-%s" % (crate, tag))
+        if not os.path.isdir(hd):
+            shutil.copytree(src, hd, ignore=shutil.ignore_patterns("target"))
+        libp = os.path.join(hd, "src", "lib.rs")
+        cur = open(libp).read() if os.path.exists(libp) else ""
+        if cur != lib:
+            with open(libp, "w") as f:
+                f.write(lib)
+        for rel in ("Cargo.toml", "Cargo.lock"):
+            sp, dp = os.path.join(src, rel), os.path.join(hd, rel)
+            if os.path.exists(sp) and (not os.path.exists(dp) or open(sp).read() != open(dp).read()):
+                shutil.copy(sp, dp)
         return {
             "dir": hd,
-            "inputs": _walk_rs(hd) + [os.path.join(repo, "distributed-walrus/src/metadata.rs"), os.path.join(repo, "distributed-walrus/src/controller/types.rs")],
-            "pkg_fingerprint": "dwshim-",
-            "cargo_args": ["--lib"],
-        }
-    if crate == "oshim":
-        hd = os.path.join(VERIF, "harness", "oshim")
-        return {
-            "dir": hd,
-            "inputs": _walk_rs(hd) + _walk_rs(os.path.join(repo, "octopii/src/wal/wal")),
-            "pkg_fingerprint": "oshim-",
+            "inputs": [os.path.join(src, "Cargo.toml")] + _walk_rs(os.path.join(src, "stubs")) + repo_inputs,
+            "pkg_fingerprint": crate + "-",
             "cargo_args": ["--lib"],
         }
     raise ExtractError("unknown crate " + crate)
